@@ -1,5 +1,5 @@
 (* GENERATED on every run by vp/extract_options.py from /repo/core/src/socket/options.rs - do not edit *)
-From RZ Require Import Base.Prelude Model.Engine Model.Options.
+From RZ Require Import Base.Prelude Model.Engine Model.Options Model.EngineCfg.
 Local Open Scope Z_scope.
 
 Definition x_consts : list (Z * Z) := [(SNDBUF, 11); (RCVBUF, 12); (SNDHWM, 23); (RCVHWM, 24); (LINGER, 17); (SUBSCRIBE, 6); (UNSUBSCRIBE, 7); (ROUTING_ID, 5); (RECONNECT_IVL, 18); (RECONNECT_IVL_MAX, 21); (RCVTIMEO, 27); (SNDTIMEO, 28); (LAST_ENDPOINT, 32); (TCP_KEEPALIVE, 34); (TCP_KEEPALIVE_IDLE, 35); (TCP_KEEPALIVE_CNT, 36); (TCP_KEEPALIVE_INTVL, 37); (HEARTBEAT_IVL, 38); (HEARTBEAT_TIMEOUT, 39); (HANDSHAKE_IVL, 41); (ROUTER_MANDATORY, 33); (AUTO_DELIMITER, 42); (ZAP_DOMAIN, 55); (PLAIN_SERVER, 44); (PLAIN_USERNAME, 45); (PLAIN_PASSWORD, 46); (NOISE_XX_ENABLED, 1202); (NOISE_XX_STATIC_SECRET_KEY, 1200); (NOISE_XX_REMOTE_STATIC_PUBLIC_KEY, 1201); (CURVE_SERVER, 47); (CURVE_SECRET_KEY, 49); (CURVE_SERVER_KEY, 48); (MAXMSGSIZE, 22); (MAX_CONNECTIONS, 1000); (IO_URING_SNDZEROCOPY, 1170); (IO_URING_RCVMULTISHOT, 1171); (TCP_CORK, 1172); (IO_URING_SESSION_ENABLED, 1175); (IO_URING_ZC_SEND_THRESHOLD, 1176); (ADAPTIVE_THROTTLE, 1210); (ALLOW_ZMTP2, 1220); (SNDBATCH_COUNT, 1215); (SNDBATCH_BYTES, 1216); (RCVBATCH_COUNT, 1217); (RCVBATCH_BYTES, 1218)].
@@ -141,3 +141,34 @@ Definition x_defaults : list (field * oval) :=
     (F_io_uring_send_zerocopy, VB false);
     (F_io_uring_recv_multishot, VB false);
     (F_io_uring_zc_send_threshold, VZ 16384) ].
+Definition x_sec_fields : list field := [F_plain_options_enabled; F_noise_xx_options_enabled; F_curve_options_enabled].
+Definition x_uring_snd_buffer : N := 65536%N.
+Definition x_cfg_copies : list (cfgf * field) :=
+  [ (CF_routing_id, F_routing_id);
+    (CF_allow_zmtp2, F_allow_zmtp2);
+    (CF_heartbeat_ivl, F_heartbeat_ivl);
+    (CF_heartbeat_timeout, F_heartbeat_timeout);
+    (CF_handshake_timeout, F_handshake_ivl);
+    (CF_rcvtimeo, F_rcvtimeo);
+    (CF_sndtimeo, F_sndtimeo);
+    (CF_use_send_zerocopy, F_io_uring_send_zerocopy);
+    (CF_use_recv_multishot, F_io_uring_recv_multishot);
+    (CF_use_cork, F_tcp_cork);
+    (CF_use_noise_xx, F_noise_xx_options_enabled);
+    (CF_noise_xx_local_sk_bytes_for_engine, F_noise_xx_options_static_secret_key_bytes);
+    (CF_noise_xx_remote_pk_bytes_for_engine, F_noise_xx_options_remote_static_public_key_bytes);
+    (CF_use_curve, F_curve_options_enabled);
+    (CF_curve_local_secret_key, F_curve_options_secret_key);
+    (CF_curve_remote_public_key, F_curve_options_server_public_key);
+    (CF_use_plain, F_plain_options_enabled);
+    (CF_plain_username_for_engine, F_plain_options_username);
+    (CF_plain_password_for_engine, F_plain_options_password);
+    (CF_max_msg_size, F_maxmsgsize);
+    (CF_sndhwm, F_sndhwm);
+    (CF_rcvhwm, F_rcvhwm);
+    (CF_sndbatch_count, F_sndbatch_count);
+    (CF_rcvbatch_count, F_rcvbatch_count);
+    (CF_rcvbatch_bytes, F_rcvbatch_bytes);
+    (CF_rcvbuf, F_rcvbuf);
+    (CF_zc_send_threshold, F_io_uring_zc_send_threshold) ].
+Definition x_slot_raw (target count : N) : N := (let ml := N.min count (target / 256) in target + ml * 9 + (count - ml) * 2)%N.
